@@ -26,6 +26,10 @@ CHECKS = {
    "exhaustive enumeration of all 65536 boot numbers and all short boot-order lists through the real in-memory store (composition of GetBootOrder and GetBootEntry); bounded exhaustive node sequences (<=3 nodes over 7 kinds) from an independent device-path encoder",
    "Every boot number is resolved end-to-end through the real accessors; every load option of the bounded language is decoded by the real library and compared field by field, HD/File text forms parsed and compared by value. Exhaustive for boot numbers; bounded (node count, field-value alphabets) for load options.",
    "Node sequences longer than 3 and field values outside the alphabets rely on the small-scope hypothesis; dpgen encoder trusted.", "DESIGN.md section 4 C18"),
+ "C11": ("exploration", "E-shape",
+   "bounded exhaustive product (6 write APIs x directories x variable definitions incl. all 256 attribute masks x values; stored mask x required mask 256x256 x file shapes) with the call trace recorded at the afero.Fs boundary and checked by a protocol automaton",
+   "Every write of the product is executed on the real library over a recording filesystem and its exact call trace (path, open flags, number and content of writes, no other mutating call) is checked; every read combination is executed with a spy decoder. Exhaustive over the stated product.",
+   "Trace semantics are those of afero's MemMapFs; names/GUIDs/values outside the alphabets rely on the absence of value-dependent branches.", "DESIGN.md section 4 C11"),
 }
 
 NOT_YET = "check not built yet in this round (planned, see DESIGN.md section 4); no claim is made"
